@@ -196,7 +196,7 @@ def option_run(sx, shape, kind, term, start, max_steps):
             sx.prove_eq(st['reward'], rew[(s, a, ns)], f'base-reward[{t}]', tol=0)
 
 
-def semimdp(sx, shape, kind, term, start, nsim, primitive):
+def semimdp(sx, shape, kind, term, start, nsim, primitive, again=False):
     sh = SHAPES[shape]
     L, AL = sh.slabels, sh.alabels
     from msdm.core.semimdp.semimdp import SemiMarkovDecisionProcess
@@ -226,45 +226,58 @@ def semimdp(sx, shape, kind, term, start, nsim, primitive):
             return
         if start in term:
             return
-        sims = []
-        orig = smdp.run_simulations
+        def query_and_check(opt, term, nsim, tag):
+            sims = []
+            orig = smdp.__class__.run_simulations.__get__(smdp)
 
-        def spy(s_, a_):
-            r = orig(s_, a_)
-            sims.append(r)
-            return r
-        smdp.run_simulations = spy
-        try:
-            d = smdp.next_state_transit_time_reward_dist(L[start], opt)
-        except AlgorithmException:
-            sx.cut('option hit its step limit')
-        items = list(d.items())
-        sx.prove(len(sims) == 1 and len(sims[0]) == nsim, 'n-simulations-run')
-        sx.prove_eq(ssum(p for _, p in items), 1, 'option-outcome-normalised')
-        # empirical distribution of (end state, number of primitive steps, discounted cumulative reward)
-        emp = []
-        for sim in sims[0]:
-            steps = list(sim)
-            end = steps[-1]['state']
-            t = len(steps) - 1
-            cum = ssum((gamma ** k) * st['reward'] for k, st in enumerate(steps[:-1]))
-            emp.append((end, t, cum))
-            sx.prove(L.index(end) in term, 'simulation-ends-at-terminal-state')
-        groups = {}
-        for (end, t, cum) in emp:
-            groups.setdefault((end, t), []).append(cum)
-        got_groups = {}
-        for (ns, t, r), p in items:
-            got_groups.setdefault((ns, t), []).append((r, p))
-        sx.prove(set(groups) == set(got_groups), 'outcome-support-is-empirical')
-        for k, cums in groups.items():
-            gp = got_groups.get(k, [])
-            sx.prove_eq(ssum(p for _, p in gp), F(len(cums), nsim), f'outcome-frequency[{L.index(k[0])},{k[1]}]')
-            sx.prove_eq(ssum(r * p for r, p in gp), ssum(cums) / nsim, f'outcome-reward-mass[{L.index(k[0])},{k[1]}]')
+            def spy(s_, a_):
+                r = orig(s_, a_)
+                sims.append(r)
+                return r
+            smdp.run_simulations = spy
+            try:
+                d = smdp.next_state_transit_time_reward_dist(L[start], opt)
+            except AlgorithmException:
+                sx.cut('option hit its step limit')
+            items = list(d.items())
+            sx.prove(len(sims) == 1 and len(sims[0]) == nsim, f'{tag}n-simulations-run')
+            sx.prove_eq(ssum(p for _, p in items), 1, f'{tag}option-outcome-normalised')
+            # empirical distribution of (end state, number of primitive steps, discounted cumulative reward)
+            emp = []
+            for sim in sims[0]:
+                steps = list(sim)
+                end = steps[-1]['state']
+                t = len(steps) - 1
+                cum = ssum((gamma ** k) * st['reward'] for k, st in enumerate(steps[:-1]))
+                emp.append((end, t, cum))
+                sx.prove(L.index(end) in term, f'{tag}simulation-ends-at-terminal-state')
+            groups = {}
+            for (end, t, cum) in emp:
+                groups.setdefault((end, t), []).append(cum)
+            got_groups = {}
+            for (ns, t, r), p in items:
+                sx.prove(L.index(ns) in term, f'{tag}outcome-ends-in-the-options-terminal-set')
+                got_groups.setdefault((ns, t), []).append((r, p))
+            sx.prove(set(groups) == set(got_groups), f'{tag}outcome-support-is-empirical')
+            for k, cums in groups.items():
+                gp = got_groups.get(k, [])
+                sx.prove_eq(ssum(p for _, p in gp), F(len(cums), nsim), f'{tag}outcome-frequency[{L.index(k[0])},{k[1]}]')
+                sx.prove_eq(ssum(r * p for r, p in gp), ssum(cums) / nsim, f'{tag}outcome-reward-mass[{L.index(k[0])},{k[1]}]')
+            return items
+        items = query_and_check(opt, set(term), nsim, '')
+        if again:
+            # further queries on the SAME semi-MDP object from the same state: another option that happens to carry the same
+            # name (stops one state earlier), then the first option again after the number of simulations was changed
+            term2 = {1} | set(term)
+            opt2 = _mk_option(sx, sh, kind, term2, 5)
+            if start not in term2:
+                query_and_check(opt2, term2, nsim, 'second-option:')
+            smdp.n_option_simulations = nsim + 1
+            query_and_check(opt, set(term), nsim + 1, 'after-changing-n:')
         # marginals
         nsd = dict(smdp.next_state_dist(L[start], opt).items()) if False else None
         ecr = ssum(r * p for (ns, t, r), p in items)
-        sx.observe('n', len(items))
+        sx.observe('n', len({(ns, t) for (ns, t, r), p in items}))     # (entries with equal rewards merge on concrete numbers: count outcomes, not entries)
 
 
 def jobs(tier):
@@ -291,3 +304,5 @@ def jobs(tier):
             for nsim in [1, 2]:
                 yield ('semimdp', dict(shape=i, kind=kind, term=[sh.S - 1], start=0, nsim=nsim, primitive=False), dict(o, cost=5))
             yield ('semimdp', dict(shape=i, kind=kind, term=[sh.S - 1], start=0, nsim=1, primitive=True), o)
+            if sh.S > 2 and kind != 'uniform':     # (three more sets of roll-outs: deterministic option policies only)
+                yield ('semimdp', dict(shape=i, kind=kind, term=[sh.S - 1], start=0, nsim=1, primitive=False, again=True), dict(o, cost=5))
